@@ -48,7 +48,8 @@ def gen(ctx):
                    % (hx("reno"), progs, i, hx("Report.x"), j, i, hx("Report.x"), hx("reno"), i, 100 + i, j, 100 + j, i, 100 + i), tags=("run-many-programs",))
     for _ in range(1500 if ctx.thorough else 150):
         yield Case("RUN", R.gen_case(ctx.rng, n=ctx.rng.randrange(4, 16), adversarial=0.0, faults=0.0, stop=0.0), tags=("run",))
-    for n in [1, 2, 3, 10, 50, 200]:
+    # (70000: more allocations in one process than a 16-bit field holds - round 5: uid = pid << 16 | counter as u16)
+    for n in [1, 2, 3, 10, 50, 200, 70000]:
         yield Case("UID", "seq %d" % n, tags=("seq",))
     yield Case("UID", "flow", tags=("flow",))
     per = 100000 if ctx.thorough else 2000
